@@ -44,6 +44,10 @@ fn gen(t: &mut Tape) -> (DiffCase, Cfg, Labels) {
                     }
                 }
             }
+            // `git log -p`: a commit block in front of some sections
+            if t.chance(1, 5) {
+                items.push(Item::Commit(crate::gen::diff::gen_commit(t, &[])));
+            }
             items.push(Item::Section(s));
         }
         DiffCase { items, final_newline: !t.chance(1, 10) }
